@@ -41,8 +41,10 @@ JudgeRead(s, e) ==
   ELSE IF Ended(e) \in {"error", "openerror"} THEN
        (IF indexed /\ ~Indexable(f) /\ (Ordered(e) \/ Ended(e) = "error") THEN {}       \* C02: falling back or failing is allowed when the summary lacks the index
         ELSE {P \o "/UnexpectedError"})
-  ELSE IF ~ValidIds(f, ids) THEN {P \o "/ForeignMessage"}
-  ELSE IF e.inexact # 0 THEN {P \o "/AlteredContent"}
+  (* a returned triple that is not a message of the file, or whose fields / channel / schema differ: index-based access
+     no longer finds what the scan finds (C02), whatever the order or filter *)
+  ELSE IF ~ValidIds(f, ids) THEN {P \o "/ForeignMessage"} \cup (IF indexed THEN {"C02/ForeignMessage"} ELSE {})
+  ELSE IF e.inexact # 0 THEN {P \o "/AlteredContent"} \cup (IF indexed THEN {"C02/AlteredContent"} ELSE {})
   ELSE LET member == IF ExactlyOnce(ids, sel) THEN {}
                      ELSE IF ExactlyOnce(ids, selx) THEN {P \o "/Selection/LogTimeMaxNotReturned"}
                      ELSE IF Len(ids) < Len(sel) /\ \A i, j \in DOMAIN ids : ids[i] = ids[j] => i = j
